@@ -109,6 +109,12 @@ CHECKS = {
         text='unit_tangent must be unit and equal the exact derivative direction; where the exact derivative vanishes at an end point it must equal the direction of the first non-vanishing exact higher derivative with the sign of the approach from inside [0,1] - for Python complex inputs, numpy scalars and the output of the library\'s own rotated(); normal = -i*tangent; curvature equals the exact formula at regular points (1/r on circular arcs, 0 on lines); tangent and curvature transform correctly under translation, rotation, scaling and reversal; the numpy error state is restored.',
         note='Trusted: Fraction arithmetic for exact derivatives. Interior parameters with (near-)zero speed are excluded (one-sided limits differ).',
         design='4/C15'),
+    'C17': dict(
+        level='exploration',
+        technique='bounded-exhaustive enumeration of SVG documents (20 leaf kinds x all ordered pairs of a transform alphabet on two nested groups, own and sibling-group transforms rotating through it) read by four readers, against an independent flattener (own transform-list parser, spec geometry of basic shapes, own path-data interpreter)',
+        text='Every document of the grid is written to a private temporary file and read by Document.paths, Document.paths_from_group (three groups), svg2paths (no transforms by design) and SaxDocument.flatten_all_paths; each returned path is matched to its element by id and compared as a point set (both directions) with the reference geometry under the reference matrix; path.transform is compared with the reference matrix.',
+        note='Trusted: mc/refsvg.py as the reading of SVG 1.1 (7.6, 9.x). Geometry tolerance 5e-4*size (polyline sampling); order of the returned list is not compared.',
+        design='4/C17'),
 }
 
 NOT_YET = {}
